@@ -204,23 +204,47 @@ class PhaseSpaceGenerator(object):
             return self.mass_importances(ms) * ret
         return ret
 
-    def cal_max_weight(self):
+    def cal_max_weight(self, n_sample=1000):
         if len(self.mass_range) == 0:
             pass
 
-        def f(x):
-            return float(-self.get_weight(x))
-
         old_gen = self.mass_generator
         self.mass_generator = [None for i in old_gen]
-        x0 = self.generate_mass(1)
-        x0 = np.stack([i.numpy()[0] for i in x0])
-
+        # start from the best point of a random sample and maximise the weight
+        # relative to it, in coordinates scaled to the mass ranges: from a
+        # single random start, where the weight can be tiny (and with ranges
+        # narrower than the finite-difference step), the gradient search
+        # stopped at once and the "maximum" was below weights that do occur
+        x_all = self.generate_mass(n_sample)
         self.mass_generator = old_gen
+        w_all = np.nan_to_num(self.get_weight(x_all).numpy(), nan=0.0)
+        idx = int(np.argmax(w_all))
+        w0 = float(w_all[idx])
+        if not w0 > 0:
+            return self.m_wtMax
+        lo = np.array([i[0] for i in self.mass_range], dtype="float64")
+        width = np.array([i[1] - i[0] for i in self.mass_range], dtype="float64")
+        x0 = np.stack([i.numpy()[idx] for i in x_all])
+
+        def f(u):
+            if np.any(u < 0) or np.any(u > 1):
+                return 0.0
+            w = float(self.get_weight(lo + u * width))
+            return -w / w0 if w == w else 0.0
+
         from scipy.optimize import minimize
 
-        ret = minimize(f, np.array(x0), bounds=self.mass_range)
-        self.m_wtMax *= (-ret.fun) * 1.001
+        u0 = np.clip((x0 - lo) / width, 0.0, 1.0)
+        gain = 1.0
+        # the weight vanishes outside the allowed mass ordering, where a line
+        # search can get stuck: a simplex search is run as well
+        for method, kw in [
+            ("L-BFGS-B", {"bounds": [(0.0, 1.0)] * len(u0)}),
+            ("Nelder-Mead", {"options": {"xatol": 1e-6, "fatol": 1e-9}}),
+        ]:
+            ret = minimize(f, u0, method=method, **kw)
+            gain = max(gain, -ret.fun)
+        self.m_wtMax *= w0 * gain * 1.001
         return self.m_wtMax
 
     def set_decay(self, m0, mass):
